@@ -340,6 +340,46 @@ pub fn queries(quick: bool) -> Vec<PolyQ> {
       }
     }
   }
+  // vertex-count sweep: EVERY number of vertices 9..=132 (quick) / 520 (thorough) of a "pie slice"
+  // (an arc of n - 1 points of the circle of radius r about the centre, finely sampled, and the
+  // point of that circle opposite to the arc: all vertices on one small circle in angular order,
+  // hence convex; the vertex centroid sits next to the arc and the apex is an outlier) and of the
+  // regular n-gon; three cyclic shifts (the apex is the last, the first, a middle vertex), both
+  // windings -- a decimation, chunking or buffer threshold on the vertex list acts at one count
+  {
+    let nmax: usize = if quick { 132 } else { 520 };
+    let centres: &[(f64, f64)] = if quick { &[(2.7, -0.3), (6.2, 1.05)] } else { &[(2.7, -0.3), (6.2, 1.05), (0.1234, 0.2345), (4.4, -0.74)] };
+    for &(lon, lat) in centres {
+      let r = 0.1;
+      for n in 9..=nmax {
+        let m = n - 1;
+        // a wide slice (arc of 0.9 rad of bearing) and a thin one (0.16 rad: the arc is 20 times
+        // smaller than the slice is long)
+        let mk_wedge = |alpha: f64| -> Vec<(f64, f64)> {
+          let mut wedge: Vec<(f64, f64)> = (0..m).map(|k| destination(lon, lat, 0.7 - alpha + 2.0 * alpha * k as f64 / (m - 1) as f64, r)).collect();
+          wedge.push(destination(lon, lat, 0.7 + PI, r));
+          wedge
+        };
+        let shapes = [mk_wedge(0.45), mk_wedge(0.08), make_polygon(lon, lat, n, r, 1.0, 0.37, false)];
+        for (si, base) in shapes.iter().enumerate() {
+          for &shift in if si <= 1 { &[0usize, 1, 2][..] } else { &[0usize][..] } {
+            let sh = match shift { 0 => 0, 1 => n - 1, _ => n / 2 + 1 };
+            for &rev in &[false, true] {
+              let mut vertices: Vec<(f64, f64)> = (0..n).map(|k| base[(k + sh) % n]).collect();
+              if rev {
+                vertices.reverse();
+              }
+              for &d in if quick { &[7u8][..] } else { &[4u8, 8][..] } {
+                for &exact in &[false, true] {
+                  v.push(PolyQ { depth: d, exact, vertices: vertices.clone(), lon, lat, radius: r, convex: true });
+                }
+              }
+            }
+          }
+        }
+      }
+    }
+  }
   for &(lon, lat) in &poly_centres(quick) {
     for &r in &radii {
       if lat.abs() + r > HALF_PI - 0.02 {
